@@ -30,7 +30,7 @@ ANCHORS = [
     "acnportal.acnsim.analysis:aggregate_current",
     "acnportal.acnsim.analysis:total_energy_delivered",
 ]
-REQUIRED = ["runs_with_scheduler_trial_charging_its_copies", "resumed_runs_judged", "resumed_after_json", "stochastic_runs_judged", "stochastic_runs_with_early_departure", "stochastic_cells_checked", "runs_judged", "sessions_reconciled", "charge_calls_logged", "vacant_cells_checked", "vacant_station_pilots",
+REQUIRED = ["finished_simulations_continued_with_more_arrivals", "runs_with_scheduler_trial_charging_its_copies", "resumed_runs_judged", "resumed_after_json", "stochastic_runs_judged", "stochastic_runs_with_early_departure", "stochastic_cells_checked", "runs_judged", "sessions_reconciled", "charge_calls_logged", "vacant_cells_checked", "vacant_station_pilots",
             "battery_json_dumps", "regime:heterogeneous-voltage", "regime:noise-battery", "regime:two-stage", "regime:ideal"]
 BUDGET_S = {"quick": 240, "thorough": 3000}
 
@@ -69,7 +69,7 @@ def cases(seed, tier):
             d = gen.scenario(rng, sched="uncontrolled", noise_p=0.3)
         else:
             d = gen.scenario(rng, sched="sorted", kinds=("EVSE", "FR"), noise_p=0.3)
-        out.append({"desc": d, "meddle": rng.random() < 0.15})
+        out.append({"desc": d, "meddle": rng.random() < 0.15, "continue": rng.random() < 0.2})
     for i in range(n // 6):
         d = gen.scenario(rng, sched=rng.choice(["scripted", "uncontrolled"]), noise_p=0.0)
         out.append({"desc": d, "resumed_at": rng.choice([1, 2, 4, 7])})
@@ -388,6 +388,44 @@ def run_case(case, obs):
     obs.sample = {"stations": len(ids), "voltages": sorted(set(volt.values())), "sessions": len(d["sessions"]), "period": per,
                   "scheduler": d["scheduler"]["kind"], "charge_calls": len(log), "total_energy": tot, "peak": float(sim.peak),
                   "vacant_station_pilots": vacant_pilots}
+    # ---- the finished simulation is CONTINUED: more arrivals are added to its (drained) queue and run() is called again; the
+    # totals and aggregates asked for above are asked for again on the longer trajectory
+    if case.get("continue") and not obs.viol and d["scheduler"]["kind"] != "sorted":
+        from acnportal.acnsim.events import PluginEvent
+        from acnportal.acnsim.models import EV, Battery
+        extra = []
+        for k_, st in enumerate(ids[:3]):
+            a_ = T + 1 + k_
+            extra.append(EV(a_, a_ + 3 + k_, 40.0, st, f"late{k_}", Battery(200.0, 0.0, 50.0)))
+        sim.event_queue.add_events([PluginEvent(e_.arrival, e_) for e_ in extra])
+        with warnings.catch_warnings():
+            warnings.simplefilter("ignore")
+            try:
+                sim.run()
+            except Exception as e:
+                obs.violate("run_raised", f"continued run: {type(e).__name__}: {e}", **wit)
+                return
+        obs.ev("finished_simulations_continued_with_more_arrivals")
+        cr2 = sim.charging_rates
+        T2 = sim.iteration
+        exp_p2 = [sum(cr2[i, t] * volt[st] for i, st in enumerate(ids)) / 1000.0 for t in range(cr2.shape[1])]
+        ap2 = acnsim.aggregate_power(sim)
+        if len(ap2) != cr2.shape[1] or not np.allclose(ap2, exp_p2, rtol=1e-9, atol=1e-12):
+            obs.violate("aggregate_power", f"after continuing the finished simulation to period {T2}: aggregate_power != sum(rate x voltage)/1000 "
+                        f"(len {len(ap2)} vs {cr2.shape[1]})", **wit)
+        tot2 = acnsim.total_energy_delivered(sim)
+        integ2 = sum(exp_p2) * per / 60.0
+        if not (abs(tot2 - integ2) <= tol(integ2)):
+            obs.violate("total_energy_vs_power_integral", f"continued simulation: total_energy_delivered {tot2!r}, integral of recorded aggregate "
+                        f"power {integ2!r}", **wit)
+        for e_ in extra:
+            i_ = row[e_.station_id]
+            exp_e = float(sum(cr2[i_, t] for t in range(e_.arrival, min(e_.departure, T2)))) * volt[e_.station_id] / 1000.0 * per / 60.0
+            if not (abs(e_.energy_delivered - exp_e) <= tol(exp_e)):
+                obs.violate("energy_vs_recorded_rates", f"continued simulation: session {e_.session_id}: {e_.energy_delivered!r} vs {exp_e!r}", **wit)
+        agg2 = [float(sum(cr2[i, t] for i in range(len(ids)))) for t in range(T2)]
+        if not (abs(sim.peak - max([0.0] + agg2)) <= tol(max([0.0] + agg2))):
+            obs.violate("peak", f"continued simulation: peak {sim.peak!r} vs {max([0.0] + agg2)!r}", **wit)
 
 
 def classify(v):
